@@ -16,6 +16,7 @@ import EvalexprVerif.Proofs.IteratorsSeqEval
 import EvalexprVerif.Proofs.Iterators
 import EvalexprVerif.Proofs.AgreeIter
 import EvalexprVerif.Spec.Properties.C02
+import EvalexprVerif.Proofs.AgreeFnSweep
 
 namespace Evalexpr.Spec.C14
 open Evalexpr Evalexpr.Spec
@@ -103,5 +104,35 @@ example : NoFabricate (.hashMap { funs := [(['f'], fun v => .ok v)] }) := by
   split at hf
   · cases hf; constructor <;> intro h <;> cases h
   · cases hf
+
+/-! ### about the code as translated on this run
+`Gen.Node.iter_*identifiers*` are the bodies of the ten adaptors of src/tree/mod.rs rendered by `translate_fn.py` (their
+`filter_map` closures over the list the translated `NodeIter::next` loop yields, `fn_Node_iter_agree`). -/
+
+/-- on the tree of ANY expression AST the rendered `iter_identifiers` lists the source occurrences in order, and every rendered
+class-specific iterator the occurrences of its class; the rendered mutable variants list the same and leave the tree as it is -/
+theorem C14_source_generated (e : Expr) :
+    let t : Node := ⟨.rootNode, [toTree e]⟩
+    Gen.Node.iter_identifiers t = (occ e).map (·.2) ∧
+    Gen.Node.iter_read_variable_identifiers t = ((occ e).filter (fun p => IterKind.readVariable.keeps p.1)).map (·.2) ∧
+    Gen.Node.iter_write_variable_identifiers t = ((occ e).filter (fun p => IterKind.writeVariable.keeps p.1)).map (·.2) ∧
+    Gen.Node.iter_function_identifiers t = ((occ e).filter (fun p => IterKind.function.keeps p.1)).map (·.2) ∧
+    Gen.Node.iter_variable_identifiers t = ((occ e).filter (fun p => IterKind.variable.keeps p.1)).map (·.2) ∧
+    (Gen.Node.iter_identifiers_mut t).1 = Gen.Node.iter_identifiers t ∧ (Gen.Node.iter_identifiers_mut t).2 = t := by
+  intro t
+  have hs : identOccurrences t = occ e := C14_source e
+  refine ⟨?_, ?_, ?_, ?_, ?_, ?_, ?_⟩
+  · rw [AgreeFn.fn_Node_iter_identifiers_agree, C14_classes, hs]
+    simp only [IterKind.keeps]
+    congr 1
+    induction occ e with
+    | nil => rfl
+    | cons a as ih => simp [List.filter, ih]
+  · rw [AgreeFn.fn_Node_iter_read_variable_identifiers_agree, C14_classes, hs]
+  · rw [AgreeFn.fn_Node_iter_write_variable_identifiers_agree, C14_classes, hs]
+  · rw [AgreeFn.fn_Node_iter_function_identifiers_agree, C14_classes, hs]
+  · rw [AgreeFn.fn_Node_iter_variable_identifiers_agree, C14_classes, hs]
+  · rw [(AgreeFn.fn_Node_iter_identifiers_mut_agree t).1, AgreeFn.fn_Node_iter_identifiers_agree, C14_mut_idents]
+  · exact (AgreeFn.fn_Node_iter_identifiers_mut_agree t).2
 
 end Evalexpr.Spec.C14
